@@ -4,6 +4,7 @@
 -/
 import J2M.Proofs.RegistryModels
 import J2M.Proofs.RegistryGenMerge
+import J2M.Proofs.RegistryGenMergeS
 import J2M.Proofs.RegistryGenOpt
 namespace J2M.Reg
 open J2M
@@ -55,6 +56,19 @@ theorem subst_optLike (σ : String → String) (t : Ty) : (substTy σ t).optLike
   funext u
   exact subst_isOpt σ u
 
+theorem subst_isUnion (σ : String → String) (t : Ty) : (substTy σ t).isUnion = t.isUnion := by
+  cases t <;> simp [substTy, Ty.isUnion]
+
+theorem subst_optLikeS (σ : String → String) (t : Ty) : (substTy σ t).optLikeS = t.optLikeS := by
+  cases t with
+  | union ts =>
+    have h1 : (ts.map (substTy σ)).any Ty.isOpt = ts.any Ty.isOpt := by
+      rw [List.any_map]; congr 1; funext u; exact subst_isOpt σ u
+    have h2 : (ts.map (substTy σ)).all (fun u => !u.isUnion) = ts.all (fun u => !u.isUnion) := by
+      rw [List.all_map]; congr 1; funext u; simp [subst_isUnion]
+    simp only [substTy, substList_eq_map, Ty.optLikeS, Ty.isOpt, Bool.false_or, h1, h2, List.length_map]
+  | _ => simp [substTy, Ty.optLikeS, Ty.isOpt]
+
 /-- transport of "object lies in field dict" along a substitution, given the transport of the field values -/
 theorem inhFields_subst {acc : Accepts} {L₁ L₂ : ModelLookup} {σ : String → String} {fs : Fields}
     {kvs : List (String × Json)} (h : InhFields acc L₁ fs kvs)
@@ -99,6 +113,29 @@ theorem inhFieldsLX_subst {acc : Accepts} {L₁ L₂ : ModelLookup} {σ : String
   · intro ft hft hno
     obtain ⟨f, hf, rfl⟩ := mem_substFields.1 hft
     simp only [subst_optLike] at hno
+    exact h3 f hf hno
+
+/-- the same for the refined lax reading -/
+theorem inhFieldsLXS_subst {acc : Accepts} {L₁ L₂ : ModelLookup} {σ : String → String} {fs : Fields}
+    {kvs : List (String × Json)} (h : InhFieldsLXS false acc L₁ fs kvs)
+    (ih : ∀ kv ∈ kvs, ∀ t, Inh acc L₁ t kv.2 → Inh acc L₂ (substTy σ t) kv.2) :
+    InhFieldsLXS false acc L₂ (substFields σ fs) kvs := by
+  obtain ⟨h1, h2, h3⟩ := h
+  refine ⟨?_, ?_, ?_⟩
+  · intro kv hkv
+    rw [substFields_get?, Option.isSome_map]
+    exact h1 kv hkv
+  · intro kv hkv t' ht'
+    rw [substFields_get?] at ht'
+    cases hg : Fields.get? fs kv.1 with
+    | none => simp [hg] at ht'
+    | some t =>
+      simp only [hg, Option.map_some, Option.some.injEq] at ht'
+      subst ht'
+      exact inhX_false_iff.2 (ih kv hkv t (inhX_false_iff.1 (h2 kv hkv t hg)))
+  · intro ft hft hno
+    obtain ⟨f, hf, rfl⟩ := mem_substFields.1 hft
+    simp only [subst_optLikeS] at hno
     exact h3 f hf hno
 
 /-! ## the simulation theorem -/
@@ -231,7 +268,7 @@ theorem isIdx_σOf (members : List String) (k : Nat) : ∀ i, IsIdx i → IsIdx 
     covered by the optimised merged model, everything else keeps its (retargeted) field dict. -/
 theorem mergeStep_sound {acc : Accepts} {K : String → Prop} {cfg : GenCfg} {so : StrOracle} {g g1 g2 : Graph}
     {members : List String} {idx : String}
-    (hMS : MergeSoundP false acc K IsIdx) (hOS : OptSoundPWeak false acc K IsIdx cfg)
+    (hMS : MergeSoundPS false acc K IsIdx) (hOS : OptSoundPWeak false acc K IsIdx cfg)
     (wf : WF g) (gg : GraphGood K g)
     (h1 : mergeGroup cfg so g members = .ok (g1, idx)) (h2 : optimizeModel cfg so g1 idx = .ok g2) :
     GraphGood K g2 ∧ ∀ t v, Inh acc g.look t v → Inh acc g2.look (substTy (σOf members idx) t) v := by
@@ -282,8 +319,8 @@ theorem mergeStep_sound {acc : Accepts} {K : String → Prop} {cfg : GenCfg} {so
           rw [hf] at hL
           simp only [Option.map_some, Option.some.injEq] at hL
           exact List.mem_map.2 ⟨m0, List.mem_filterMap.2 ⟨i, by simpa using hc, hf⟩, hL⟩
-      have lax1 := hcov1 fs hfs kvs (inhFieldsX_false_iff.2 hin).toLax
-      have lax2 := inhFieldsLX_subst (σ := σOf members (indexOf g.counter))
+      have lax1 := hcov1 fs hfs kvs (inhFieldsX_false_iff.2 hin).toLaxS
+      have lax2 := inhFieldsLXS_subst (σ := σOf members (indexOf g.counter))
         (L₂ := ((mergedGraph g members (indexOf g.counter) F nm ng).setFields (indexOf g.counter) fs').look) lax1 IH
       exact inhFieldsX_false_iff.1 (hcov2 kvs lax2)
     · -- not a member: keeps its (retargeted) field dict
@@ -331,7 +368,7 @@ theorem optimizeModel_sound {acc : Accepts} {K : String → Prop} {cfg : GenCfg}
       have hfs : fs = m.fields := by
         unfold Graph.look at hL; rw [hm] at hL; simpa using hL.symm
       subst hfs
-      exact inhFieldsX_false_iff.1 (hcov kvs (inhFieldsX_false_iff.2 tr).toLax)
+      exact inhFieldsX_false_iff.1 (hcov kvs (inhFieldsX_false_iff.2 tr).toLaxS)
     · rw [if_neg hji]
       exact ⟨fs, hL, tr⟩
 
@@ -365,7 +402,7 @@ theorem σFold_append (repl : List (String × List String)) (p : String × List 
   simp [σFold, List.foldl_append]
 
 theorem groupsFold_sound {acc : Accepts} {K : String → Prop} {cfg : GenCfg} {so : StrOracle} {g : Graph}
-    (hMS : MergeSoundP false acc K IsIdx) (hOS : OptSoundPWeak false acc K IsIdx cfg) :
+    (hMS : MergeSoundPS false acc K IsIdx) (hOS : OptSoundPWeak false acc K IsIdx cfg) :
     ∀ (Ms : List (List String)) (st st' : Graph × List (String × List String)),
       WF st.1 → GraphGood K st.1 →
       (∀ t v, Inh acc g.look t v → Inh acc st.1.look (substTy (σFold st.2) t) v) →
@@ -396,7 +433,7 @@ theorem groupsFold_sound {acc : Accepts} {K : String → Prop} {cfg : GenCfg} {s
     the index of its merged model, see `σFold_member`/`σFold_nonmember`). -/
 theorem mergeModels_sound_core {acc : Accepts} {K : String → Prop} {cfg : GenCfg} {so : StrOracle}
     {cmps : List Cmp} {g g' : Graph} {repl : List (String × List String)}
-    (hMS : MergeSoundP false acc K IsIdx) (hOS : OptSoundPWeak false acc K IsIdx cfg)
+    (hMS : MergeSoundPS false acc K IsIdx) (hOS : OptSoundPWeak false acc K IsIdx cfg)
     (wf : WF g) (gg : GraphGood K g) (h : mergeModels cfg so cmps g = .ok (g', repl)) :
     GraphGood K g' ∧ ∀ t v, Inh acc g.look t v → Inh acc g'.look (substTy (σFold repl) t) v := by
   obtain ⟨tbl, groups, gm, _, _, hfold, hfinal⟩ := mergeModels_eq h
